@@ -106,8 +106,19 @@ class CellGen:
             num += r.choice(['a', 'b'])
         return {'k': 'bar', 'double': r.random() < 0.1, 'number': num, 'hidden': False, 'type': r.choice(BAR_TYPES), 'fermata': r.random() < 0.08, 'tail': ''}
 
+    plain = False
+
+    def plain_note(self):
+        r = self.rng
+        if r.random() < 0.15:
+            return {'k': 'rest', 'pre': [], 'dur': self.dur(allow_none=False), 'rr': 'r', 'post': self.sigs(REST_SIG, 1)}
+        return {'k': 'note', 'pre': self.sigs(SIG30, 2), 'dur': self.dur(allow_none=False), 'mid': [], 'pitch': self.pitch(), 'post1': [], 'acc': '', 'disp': '',
+                'post2': self.sigs(SIG30, 2)}
+
     def data_cell(self, header):
         r = self.rng
+        if self.plain and header == '**kern':
+            return {'k': 'other', 'kind': 'empty', 'text': '.'} if r.random() < 0.1 else self.plain_note()
         if header in ('**kern',):
             x = r.random()
             if x < 0.12:
@@ -181,7 +192,8 @@ class DocGen:
     profile: 'core' (signatures before the first measure, splits re-joined before the next barline),
              'free' (mid-score signature changes, splits across barlines)."""
 
-    def __init__(self, rng, profile='core', max_spines=4, kern_only=False, comments=True, max_measures=5, sig_weight=0.35):
+    def __init__(self, rng, profile='core', max_spines=4, kern_only=False, comments=True, max_measures=5, sig_weight=0.35,
+                 split_depth=2, plain_notes=False, even_preamble=False):
         self.rng = rng
         self.profile = profile
         self.max_spines = max_spines
@@ -189,6 +201,10 @@ class DocGen:
         self.comments = comments
         self.max_measures = max_measures
         self.cg = CellGen(rng, sig_weight=sig_weight)
+        self.split_depth = split_depth
+        self.even_preamble = even_preamble
+        if plain_notes:
+            self.cg.plain = True
 
     def headers(self):
         r = self.rng
@@ -239,9 +255,9 @@ class DocGen:
             open_splits = 0
             for k in range(ndata):
                 x = r.random()
-                can_split = len(live) < 6 and any(hs[s] == '**kern' and depth[s] < 2 for s in live)
+                can_split = len(live) < 6 and any(hs[s] == '**kern' and depth[s] < self.split_depth for s in live)
                 if x < 0.12 and can_split:
-                    cand = [i for i, s in enumerate(live) if hs[s] == '**kern' and depth[s] < 2]
+                    cand = [i for i, s in enumerate(live) if hs[s] == '**kern' and depth[s] < self.split_depth]
                     i = r.choice(cand)
                     rows.append({'kind': 'cells', 'rk': 'split', 'cells': [op_cell('*^') if j == i else dict(NULL_I) for j in range(len(live))], 'live': list(live)})
                     depth[live[i]] += 1
